@@ -753,6 +753,14 @@ var watchErrFlavours = []listErrFlavour{
 	{"temporary net timeout", tempNetErr{}},
 }
 
+// bumpRV advances the server's resourceVersion without an event on this
+// collection (as a change to another collection of the same server does).
+func (a *fakeAPI) bumpRV() {
+	a.mu.Lock()
+	a.rv++
+	a.mu.Unlock()
+}
+
 func (a *fakeAPI) hungCount() int {
 	a.mu.Lock()
 	defer a.mu.Unlock()
